@@ -5,6 +5,7 @@
 import Nq.SmtpIO
 import Nq.Lemmas.C20Substdio
 import Nq.Lemmas.SmtpSim
+import Nq.Lemmas.SmtpPrefix
 
 namespace Nq.Lemmas.SmtpIO
 open Nq Nq.Substdio Nq.SmtpIn Nq.SmtpOut Nq.SmtpIO Nq.Lemmas.C20
@@ -246,12 +247,114 @@ theorem putAll_spec (o : OSt) (ds : List Bytes) (h : OWF o) (hc : cpIn o) :
 theorem rputs_flatten (st : RSt) (c : Byte) : (rputs st c).flatten = (rstep st c).2 := by
   cases st <;> simp only [rputs, rstep] <;> split <;> (try split) <;> (try split) <;> simp
 
+/-! ### whatever happens, what has left the program is a prefix of what was handed to `substdio_put` -/
+
+theorem flush_prefix (s : OSt) (h : OWF s) :
+    ∃ t, (flush s).1.out ++ (flush s).1.buf ++ t = s.out ++ s.buf := by
+  unfold flush
+  by_cases hp : s.p = 0
+  · rw [if_pos hp]; exact ⟨[], by simp⟩
+  · rw [if_neg hp]
+    obtain ⟨⟨t, ht⟩, _⟩ := allwrite_spec s.ws s.buf
+    refine ⟨t, ?_⟩
+    simp only [List.append_nil, List.append_assoc]
+    rw [← ht]
+
+theorem putLoop_buf (fuel n : Nat) (s : OSt) (d : Bytes) : (putLoop fuel n s d).1.buf = s.buf := by
+  induction fuel generalizing n s d with
+  | zero => rfl
+  | succ fuel ih =>
+    simp only [putLoop]
+    by_cases hl : d.length > s.n
+    · rw [if_pos hl]
+      generalize (if n > d.length then d.length else n) = n'
+      by_cases hr : (allwrite s.ws (d.take n')).2.2 = true
+      · rw [if_pos hr, ih]
+      · rw [if_neg hr]
+    · rw [if_neg hl]
+
+theorem putLoop_prefix (fuel n : Nat) (s : OSt) (d : Bytes) :
+    ∃ t, (putLoop fuel n s d).1.out ++ t = s.out ++ d := by
+  induction fuel generalizing n s d with
+  | zero => exact ⟨d, rfl⟩
+  | succ fuel ih =>
+    simp only [putLoop]
+    by_cases hl : d.length > s.n
+    · rw [if_pos hl]
+      generalize (if n > d.length then d.length else n) = n'
+      obtain ⟨⟨t, ht⟩, a2⟩ := allwrite_spec s.ws (d.take n')
+      by_cases hr : (allwrite s.ws (d.take n')).2.2 = true
+      · rw [if_pos hr]
+        obtain ⟨t', ht'⟩ := ih n' { s with out := s.out ++ (allwrite s.ws (d.take n')).2.1, ws := (allwrite s.ws (d.take n')).1 } (d.drop n')
+        refine ⟨t', ?_⟩
+        rw [ht']
+        simp only [List.append_assoc]
+        rw [a2 hr, List.take_append_drop]
+      · rw [if_neg hr]
+        refine ⟨t ++ d.drop n', ?_⟩
+        simp only [List.append_assoc]
+        rw [← List.append_assoc _ t, ← ht, List.take_append_drop]
+    · rw [if_neg hl]; exact ⟨d, rfl⟩
+
+theorem put_prefix (s : OSt) (d : Bytes) (h : OWF s) (hc : cpIn s) :
+    ∃ t, (put s d).1.out ++ (put s d).1.buf ++ t = s.out ++ s.buf ++ d := by
+  by_cases hok : (put s d).2 = true
+  · exact ⟨[], by rw [List.append_nil]; exact (put_spec s d h hc).2.2.2 hok⟩
+  · revert hok
+    unfold put
+    by_cases hl : d.length > usub32 s.n s.p
+    · rw [if_pos hl]
+      obtain ⟨f1, _, _, f4⟩ := flush_spec s h
+      have fp := flush_p s
+      have fb : (flush s).1.buf = [] := by
+        have := f1.2.1; rw [fp] at this; exact List.eq_nil_of_length_eq_zero this
+      by_cases hr : (flush s).2 = true
+      · rw [if_pos hr]
+        generalize (if s.n < OUTSIZE then OUTSIZE else s.n) = n0
+        by_cases hr2 : (putLoop (d.length + 1) n0 (flush s).1 d).2.2 = true
+        · rw [if_pos hr2]; intro hok; exact absurd rfl hok
+        · rw [if_neg hr2]
+          intro _
+          obtain ⟨t, ht⟩ := putLoop_prefix (d.length + 1) n0 (flush s).1 d
+          refine ⟨t, ?_⟩
+          rw [putLoop_buf, fb, List.append_nil, ht]
+          have := f4 hr
+          rw [fb, List.append_nil] at this
+          rw [this]
+      · rw [if_neg hr]
+        intro _
+        obtain ⟨t, ht⟩ := flush_prefix s h
+        exact ⟨t ++ d, by rw [← List.append_assoc, ht]⟩
+    · rw [if_neg hl]; intro hok; exact absurd rfl hok
+
+theorem putAll_prefix (o : OSt) (ds : List Bytes) (h : OWF o) (hc : cpIn o) :
+    ∃ t, (putAll o ds).1.out ++ (putAll o ds).1.buf ++ t = o.out ++ o.buf ++ ds.flatten := by
+  induction ds generalizing o with
+  | nil => exact ⟨[], by simp [putAll]⟩
+  | cons d ds ih =>
+    simp only [putAll]
+    obtain ⟨p1, p2, _, p4⟩ := put_spec o d h hc
+    by_cases hr : (put o d).2 = true
+    · rw [if_pos hr]
+      obtain ⟨t, ht⟩ := ih (put o d).1 p1 p2
+      exact ⟨t, by rw [ht, p4 hr]; simp⟩
+    · rw [if_neg hr]
+      obtain ⟨t, ht⟩ := put_prefix o d h hc
+      exact ⟨t ++ ds.flatten, by rw [← List.append_assoc, ht]; simp⟩
+
+theorem rfull_cons (st : RSt) (c : Byte) (m : Bytes) :
+    rfull st (c :: m) = (rstep st c).2 ++ rfull (rstep st c).1 m := by
+  simp [rfull, rpart, rstate]
+
 /-- what the chunked encoder loop did, against the pure encoder on the whole message `m`;
 `pre` = what was on the wire or in the output buffer before, `rerr`/`werr` = "the script contains a
-failing call" -/
-def OAgree (m pre : Bytes) (n : Nat) (rerr werr : Prop) (st : RSt) : ORes → Prop
+failing call".  First clause (every outcome): what has been written or is still buffered is a prefix of
+`pre ++ rfull st m`. -/
+def OAgree (m pre : Bytes) (n : Nat) (rerr werr : Prop) (st : RSt) (R : ORes) : Prop :=
+  (∃ t, R.ost.out ++ R.ost.buf ++ t = pre ++ rfull st m) ∧
+  match R with
   | .sent o' => ∃ e, rrun st m = some e ∧ o'.out = pre ++ e ∧ o'.buf = [] ∧ OWF o' ∧ cpIn o' ∧ o'.n = n
-  | .partialLine _ => rrun st m = none
+  | .partialLine o' => rrun st m = none ∧ o'.out ++ o'.buf = pre ++ rpart st m
   | .tempRead _ => rerr
   | .dropped _ => werr
 
@@ -259,11 +362,15 @@ theorem OAgree_step (m' pre : Bytes) (n : Nat) (rerr rerr' werr werr' : Prop) (s
     (hr : rerr' → rerr) (hw : werr' → werr)
     (h : OAgree m' (pre ++ (rstep st c).2) n rerr' werr' (rstep st c).1 R) :
     OAgree (c :: m') pre n rerr werr st R := by
+  obtain ⟨⟨t, ht⟩, h⟩ := h
+  refine ⟨⟨t, by rw [ht, rfull_cons]; simp⟩, ?_⟩
   cases R with
   | sent o' =>
     obtain ⟨e, h1, h2, h3⟩ := h
     exact ⟨(rstep st c).2 ++ e, by simp [rrun, h1], by rw [h2]; simp, h3⟩
-  | partialLine o' => simp only [OAgree] at h ⊢; simp [rrun, h]
+  | partialLine o' =>
+    simp only at h ⊢
+    exact ⟨by simp [rrun, h.1], by rw [h.2]; simp [rpart]⟩
   | tempRead o' => exact hr h
   | dropped o' => exact hw h
 
@@ -285,6 +392,7 @@ theorem oloop_spec (fuel : Nat) (i : ISt) (o : OSt) (st : RSt) (hi : IWF i) (ho 
     cases r with
     | err =>
       simp only at g4 ⊢
+      refine ⟨⟨rfull st (i.data ++ i.src), rfl⟩, ?_⟩
       show 0 ∈ i.rs
       apply Classical.byContradiction
       intro hn
@@ -307,60 +415,89 @@ theorem oloop_spec (fuel : Nat) (i : ISt) (o : OSt) (st : RSt) (hi : IWF i) (ho 
         intro hn
         exact (p5 hn).2 h'
       · rw [if_neg hr]
-        show 0 ∈ o.ws
-        apply Classical.byContradiction
-        intro hn
-        exact hr (p5 hn).1
+        obtain ⟨t, ht⟩ := putAll_prefix o (rputs st c) ho hc
+        rw [rputs_flatten] at ht
+        refine ⟨⟨t ++ rfull (rstep st c).1 (i'.data ++ i'.src), ?_⟩, ?_⟩
+        · rw [← g5, rfull_cons]
+          show (putAll o (rputs st c)).1.out ++ (putAll o (rputs st c)).1.buf ++ _ = _
+          rw [← List.append_assoc, ht]; simp
+        · show 0 ∈ o.ws
+          apply Classical.byContradiction
+          intro hn
+          exact hr (p5 hn).1
     | eof =>
       simp only at g1 g5 ⊢
       rw [g5.1]
       cases st with
-      | mid => simp only [OAgree, rrun, rfinish]
+      | mid =>
+        refine ⟨⟨[], by simp [ORes.ost, rfull, rpart, rstate, rfinish]⟩, ?_⟩
+        simp [rrun, rfinish, rpart]
       | top =>
         simp only
         obtain ⟨p1, p2, p3, p4, p5⟩ := putAll_spec o [[DOT, CR, LF]] ho hc
+        have hfull : rfull .top [] = [DOT, CR, LF] := by simp [rfull, rpart, rstate, rfinish]
         by_cases hr : (putAll o [[DOT, CR, LF]]).2 = true
         · rw [if_pos hr]
           obtain ⟨f1, f2, f3, f4⟩ := flush_spec _ p1
           have fp := flush_p (putAll o [[DOT, CR, LF]]).1
           have fb : (flush (putAll o [[DOT, CR, LF]]).1).1.buf = [] := by
             have := f1.2.1; rw [fp] at this; exact List.eq_nil_of_length_eq_zero this
+          have p4' := p4 hr
+          simp only [List.flatten_cons, List.flatten_nil, List.append_nil] at p4'
           by_cases hfl : (flush (putAll o [[DOT, CR, LF]]).1).2 = true
           · rw [if_pos hfl]
-            refine ⟨[DOT, CR, LF], by simp [rrun, rfinish], ?_, fb, f1, ?_, by rw [f3, p3]⟩
-            · have := f4 hfl
-              rw [fb, List.append_nil, p4 hr] at this
-              simpa using this
+            have hout : (flush (putAll o [[DOT, CR, LF]]).1).1.out = o.out ++ o.buf ++ [DOT, CR, LF] := by
+              have := f4 hfl
+              rw [fb, List.append_nil, p4'] at this
+              exact this
+            refine ⟨⟨[], ?_⟩, [DOT, CR, LF], by simp [rrun, rfinish], hout, fb, f1, ?_, by rw [f3, p3]⟩
+            · show (flush _).1.out ++ (flush _).1.buf ++ [] = _
+              rw [fb, hout, hfull]; simp
             · intro c hcm; rw [f2] at hcm; rw [f3]; exact p2 c hcm
           · rw [if_neg hfl]
-            show 0 ∈ o.ws
+            obtain ⟨t, ht⟩ := flush_prefix _ p1
+            refine ⟨⟨t, ?_⟩, ?_⟩
+            · show (flush _).1.out ++ (flush _).1.buf ++ t = _
+              rw [ht, p4', hfull]
+            · show 0 ∈ o.ws
+              apply Classical.byContradiction
+              intro hn
+              exact hfl (flush_nofail _ (p5 hn).2).1
+        · rw [if_neg hr]
+          obtain ⟨t, ht⟩ := putAll_prefix o [[DOT, CR, LF]] ho hc
+          simp only [List.flatten_cons, List.flatten_nil, List.append_nil] at ht
+          refine ⟨⟨t, ?_⟩, ?_⟩
+          · show (putAll o [[DOT, CR, LF]]).1.out ++ (putAll o [[DOT, CR, LF]]).1.buf ++ t = _
+            rw [ht, hfull]
+          · show 0 ∈ o.ws
             apply Classical.byContradiction
             intro hn
-            exact hfl (flush_nofail _ (p5 hn).2).1
-        · rw [if_neg hr]
-          show 0 ∈ o.ws
-          apply Classical.byContradiction
-          intro hn
-          exact hr (p5 hn).1
+            exact hr (p5 hn).1
       | cr =>
         simp only
         obtain ⟨p1, p2, p3, p4, p5⟩ := putAll_spec o [[CR, LF]] ho hc
+        have hfull : rfull .cr [] = [CR, LF, DOT, CR, LF] := by simp [rfull, rpart, rstate, rfinish]
+        have hfull' : rfull .top [] = [DOT, CR, LF] := by simp [rfull, rpart, rstate, rfinish]
         by_cases hr : (putAll o [[CR, LF]]).2 = true
         · rw [if_pos hr]
           have hfuel : 1 ≤ fuel := by
             rcases hf with hf | hf
             · omega
             · exact absurd hf.2.1 (by simp)
+          have p4' := p4 hr
+          simp only [List.flatten_cons, List.flatten_nil, List.append_nil] at p4'
           have := ih i' (putAll o [[CR, LF]]).1 .top g1 p1 p2 (Or.inr ⟨g5.2, rfl, hfuel⟩)
-          rw [p4 hr, g5.2, p3] at this
+          rw [p4', g5.2, p3] at this
           generalize oloop fuel i' (putAll o [[CR, LF]]).1 .top = R at this
+          obtain ⟨⟨t, ht⟩, this⟩ := this
+          refine ⟨⟨t, by rw [ht, hfull, hfull']; simp⟩, ?_⟩
           cases R with
           | sent o' =>
             obtain ⟨e, h1, h2, h3⟩ := this
             simp [rrun, rfinish] at h1
             subst h1
             exact ⟨[CR, LF, DOT, CR, LF], by simp [rrun, rfinish], by rw [h2]; simp, h3⟩
-          | partialLine o' => simp [OAgree, rrun, rfinish] at this
+          | partialLine o' => simp [rrun, rfinish] at this
           | tempRead o' => exact hrs this
           | dropped o' =>
             show 0 ∈ o.ws
@@ -368,10 +505,15 @@ theorem oloop_spec (fuel : Nat) (i : ISt) (o : OSt) (st : RSt) (hi : IWF i) (ho 
             intro hn
             exact (p5 hn).2 this
         · rw [if_neg hr]
-          show 0 ∈ o.ws
-          apply Classical.byContradiction
-          intro hn
-          exact hr (p5 hn).1
+          obtain ⟨t, ht⟩ := putAll_prefix o [[CR, LF]] ho hc
+          simp only [List.flatten_cons, List.flatten_nil, List.append_nil] at ht
+          refine ⟨⟨t ++ [DOT, CR, LF], ?_⟩, ?_⟩
+          · show (putAll o [[CR, LF]]).1.out ++ (putAll o [[CR, LF]]).1.buf ++ _ = _
+            rw [← List.append_assoc, ht, hfull]; simp
+          · show 0 ∈ o.ws
+            apply Classical.byContradiction
+            intro hn
+            exact hr (p5 hn).1
 
 theorem oblast_spec (i : ISt) (o : OSt) (hi : IWF i) (ho : OWF o) (hc : cpIn o) :
     OAgree (i.data ++ i.src) (o.out ++ o.buf) o.n (0 ∈ i.rs) (0 ∈ o.ws) .top (oblast i o) :=
